@@ -190,6 +190,22 @@ def routes(job):
             bad("route-lookup/wrong-tile", "lookup at the tile's centre returned %r" % (tuple(pt.pos),), cfg)
         elif tg.angdist(tvec(pt), vs).max() > 1e-12 or bool(pt.increasing) != bool(s.increasing):
             bad("routes-disagree/lookup-vs-single", "corners differ by %.3g rad" % tg.angdist(tvec(pt), vs).max(), cfg)
+        # ... and at points 4% of the way from each corner towards the centre (well inside the tile, but
+        # close enough to its edges that a size-independent tolerance would misplace them in deep tiles)
+        if n >= 8:
+            for k in range(4):
+                q = tg._norm(0.96 * c[k] + 0.04 * cen)
+                qlon, qlat = tg.lonlat(q)
+                if abs(float(qlat)) > np.pi / 2 - 1e-9:
+                    continue
+                try:
+                    pq = toast.toast_tile_for_point(n, float(qlat), float(qlon), coordsys=cs)
+                except Exception as e:
+                    bad("route-lookup/raises:%s" % type(e).__name__, repr(e), cfg)
+                    break
+                if tuple(pq.pos) != (n, x, y):
+                    bad("route-lookup/wrong-tile-near-corner", "lookup 4%% inside corner %d returned %r" % (k, tuple(pq.pos)), cfg)
+                    break
     part.sample({"routes": "single/filtered/lookup", "coordsys": "both, alternating", "example": positions[len(positions) // 2]})
     return part
 
@@ -201,7 +217,7 @@ def _job(j):
 def run(tier, seed):
     rep = Report(PROP, tier, seed, "exploration")
     D = 7 if tier == "quick" else 9
-    nlat = 20 if tier == "quick" else 24
+    nlat = 26 if tier == "quick" else 28
     rep.rule = (
         "every tile at depths 1..%d from full enumeration vs the 3-D reference (corners, diagonal, areas, nesting, neighbours), both coordinate systems; "
         "single-tile, path-filtered and point-lookup routes for every tile to depth %d and a deterministic deep lattice to depth %d; every tile is non-trivial"
